@@ -173,6 +173,9 @@ class C19(object):
                     # the yielding task is itself driven through .asyncio()
                     op[2] = "yield_in_asyncio"
         post(case["ops"], 0)
+        dg = zlib.crc32(repr(case["ops"]).encode())
+        if dg % 8 == 0:
+            case["ops"].insert((dg // 8) % (len(case["ops"]) + 1), ["reuse", TARGETS[(dg // 64) % 4], 900 + dg % 50])
         return case
 
     def sample(self, case, r):
@@ -457,6 +460,31 @@ class C19(object):
                             stacks[t].pop()
                         probes["exit:stopall"] = probes.get("exit:stopall", 0) + 1
                         check_installed("after stopall()")
+                elif name == "reuse":
+                    # one patcher object activated repeatedly (a decorated function called again,
+                    # a with-block in a loop), the second time inside an enclosing patch that has
+                    # put the very same replacement object on the target
+                    t = op[1]
+                    serial = op[2]
+                    P = make_patcher(t, "callable_shared", serial)
+                    Q = make_patcher(t, "callable_shared", serial)
+                    probes["patcher_reused"] = probes.get("patcher_reused", 0) + 1
+                    with P:
+                        stacks[t].append(("callable_shared", serial, current(t)))
+                        do_call(t, "sync", 1, None)
+                    stacks[t].pop()
+                    check_installed("after the first activation of a reused patcher of %s" % t)
+                    with Q:
+                        stacks[t].append(("callable_shared", serial, current(t)))
+                        with P:
+                            stacks[t].append(("callable_shared", serial, current(t)))
+                            do_call(t, "value", 2, None)
+                        stacks[t].pop()
+                        check_installed("after the second activation of a reused patcher of %s, inside an enclosing patch" % t)
+                        if not out:
+                            do_call(t, "sync", 3, None)
+                    stacks[t].pop()
+                    check_installed("after the enclosing patch of %s" % t)
                 elif name == "call":
                     do_call(op[1], op[2], op[3], op[4])
             # keep activations LIFO: patches started inside this block end before it is left
